@@ -181,11 +181,14 @@ def user_copy(user):
     return {"vars": dict(user["vars"]), "cons": dict(user["cons"]), "opaque": user["opaque"]}
 
 
-def user_remap(user, new_model):
-    """User additions as seen from a copy: reaction references re-pointed by id."""
+def user_remap(user, new_model, old_model=None):
+    """User additions as seen from a copy: reaction references re-pointed by id - only those of reactions that belong to
+    the model that was copied (a reaction of an earlier model of the history, pruned away since, has lost its columns for
+    good even if the copy has a new reaction of that name)."""
     cons = {}
     for name, (lb, ub, terms) in user["cons"].items():
-        cons[name] = (lb, ub, [(new_model.reactions.get_by_id(r.id) if (r.model is not None and r.id in new_model.reactions) else r, c)
+        cons[name] = (lb, ub, [(new_model.reactions.get_by_id(r.id) if (r.model is not None and (old_model is None or r.model is old_model)
+                                                                        and r.id in new_model.reactions) else r, c)
                                for r, c in terms])
     return {"vars": dict(user["vars"]), "cons": cons, "opaque": user["opaque"]}
 
@@ -637,7 +640,7 @@ class World:
         """Continue on the copy; keep the original for re-audits. Open contexts stay with the original."""
         self.retired.append({"model": old, "user": user_copy(self.user), "ctx_stack": self.ctx_stack, "how": how})
         self.model = new
-        self.user = user_remap(self.user, new)
+        self.user = user_remap(self.user, new, old)
         self.ctx_stack = []
         self.graveyard = []  # those objects belong to the history of the original
         self.detached = []
